@@ -392,7 +392,7 @@ func (e *Engine) bytesOfString(st *State, th *Thread, s *term.Term, et types.Typ
 			// fresh copy of the same contents
 			src := st.obj(sl.Obj)
 			id := e.newObjID(st, th, site)
-			st.Heap[id] = &Object{Kind: OMem, Cells: append([]Value(nil), src.Cells[sl.Off:sl.Off+sl.Len]...), T: et, ep: st.ep}
+			st.setObj(id, &Object{Kind: OMem, Cells: append([]Value(nil), src.Cells[sl.Off:sl.Off+sl.Len]...), T: et, ep: st.ep})
 			return Slice{Obj: id, Len: sl.Len, Cap: sl.Len}
 		}
 		abort("UNMODELLED", "[]byte(symbolic string %s)", s)
@@ -403,7 +403,7 @@ func (e *Engine) bytesOfString(st *State, th *Thread, s *term.Term, et types.Typ
 	for i, c := range b {
 		cells[i] = term.BVC(8, uint64(c))
 	}
-	st.Heap[id] = &Object{Kind: OMem, Cells: cells, T: et, ep: st.ep}
+	st.setObj(id, &Object{Kind: OMem, Cells: cells, T: et, ep: st.ep})
 	return Slice{Obj: id, Len: len(b), Cap: len(b)}
 }
 
